@@ -67,13 +67,17 @@ func index(dump []string) map[string]rec {
 	m := map[string]rec{}
 	for _, r := range dump {
 		if x, ok := parseRec(r); ok {
-			m[x.path] = x
+			m[x.mod+" "+x.path] = x
 		}
 	}
 	return m
 }
 
+// Locations are "module-full-name path" (several revisions of one module are separate trees with
+// equal paths).
 func below(p, anc string) bool { return p == anc || strings.HasPrefix(p, anc+"/") }
+
+func loc(d gen.Deviation) string { return d.TargetMod + " " + d.Target }
 
 func cases(c gen.C08Case) (with, without rescorr.Case) {
 	without = rescorr.Case{Names: c.BaseNames, Texts: c.BaseTexts, IgnoreNotSupported: c.IgnoreNS}
@@ -148,19 +152,19 @@ func makePlan(c gen.C08Case, base map[string]rec) *plan {
 			p.missing = append(p.missing, d.Arg)
 			continue
 		}
-		_, inBase := base[d.Target]
-		if !inBase && !(d.Implicit && isRpcIO(d.Target, base)) {
-			p.notInBase = append(p.notInBase, d.Target)
+		_, inBase := base[loc(d)]
+		if !inBase && !(d.Implicit && isRpcIO(loc(d), base)) {
+			p.notInBase = append(p.notInBase, loc(d))
 			p.missing = append(p.missing, d.Arg)
 			continue
 		}
 		if !inBase {
-			p.implicit[d.Target] = true
+			p.implicit[loc(d)] = true
 		}
 		// an ancestor (or, unless it is an rpc input/output, the node itself) was removed
 		lost := false
 		for r := range gone {
-			if below(d.Target, r) && !(d.Target == r && isRpcIO(r, base)) {
+			if below(loc(d), r) && !(loc(d) == r && isRpcIO(r, base)) {
 				lost = true
 			}
 		}
@@ -168,18 +172,18 @@ func makePlan(c gen.C08Case, base map[string]rec) *plan {
 			p.missing = append(p.missing, d.Arg+" (removed by an earlier not-supported)")
 			continue
 		}
-		key, ok := p.last[d.Target]
-		if !ok || gone[d.Target] {
-			key = fmt.Sprintf("%s#%d", d.Target, len(p.order))
+		key, ok := p.last[loc(d)]
+		if !ok || gone[loc(d)] {
+			key = fmt.Sprintf("%s#%d", loc(d), len(p.order))
 			p.order = append(p.order, key)
-			p.path[key] = d.Target
-			p.last[d.Target] = key
-			if r, ok := base[d.Target]; ok && !gone[d.Target] {
+			p.path[key] = loc(d)
+			p.last[loc(d)] = key
+			if r, ok := base[loc(d)]; ok && !gone[loc(d)] {
 				p.start[key] = r
 			} else {
-				p.start[key] = implicitRec(d.Target, base)
+				p.start[key] = implicitRec(loc(d), base)
 			}
-			delete(gone, d.Target)
+			delete(gone, loc(d))
 		}
 		rm := false
 		for _, s := range d.Stmts {
@@ -192,9 +196,9 @@ func makePlan(c gen.C08Case, base map[string]rec) *plan {
 			}
 		}
 		if rm {
-			p.removed = append(p.removed, d.Target)
-			p.emptied[d.Target] = true
-			gone[d.Target] = true
+			p.removed = append(p.removed, loc(d))
+			p.emptied[loc(d)] = true
+			gone[loc(d)] = true
 		}
 	}
 	return p
@@ -317,7 +321,7 @@ func evaluate(items []gen.C08Case, f *lib.Flags, res *lib.Result, st *stats, ver
 		mods := it.DevMods
 		typeTok := func(name string) string {
 			for _, m := range mods {
-				if r, ok := withIdx["/"+m+"/"+gen.C08TypeRefLeaf(name)]; ok {
+				if r, ok := withIdx[m+" /"+m+"/"+gen.C08TypeRefLeaf(name)]; ok {
 					return r.f["type"]
 				}
 			}
@@ -363,15 +367,6 @@ func evaluate(items []gen.C08Case, f *lib.Flags, res *lib.Result, st *stats, ver
 			}
 			g := lib.Project(o.Go.Dump, keys, true)
 			m := lib.Project(o.Model, keys, true)
-			if it.BadType {
-				// lib.ErrClass files "deviation has unresolvable type, [… unknown type …]" under the
-				// inner message's class (first needle wins); the model names the outer one
-				for j := range g {
-					if g[j] == "E -:0:0:unknown-type" {
-						g[j] = "E -:0:0:deviate-bad-type"
-					}
-				}
-			}
 			if verbose {
 				fmt.Println([]string{"with:", "without:"}[k])
 				for _, r := range g {
